@@ -325,6 +325,15 @@ macro_rules! define_interposers {
             }
         }
         #[no_mangle]
+        pub unsafe extern "C" fn signal(sig: __c_int, handler: usize) -> usize {
+            if let Some(f) = $crate::hooks::hooks().signal {
+                if let Some(r) = f(sig, handler) {
+                    return r;
+                }
+            }
+            $crate::raw::signal(sig, handler)
+        }
+        #[no_mangle]
         pub unsafe extern "C" fn _exit(code: __c_int) -> ! {
             if let Some(f) = $crate::hooks::hooks().exit {
                 f(code);
